@@ -1886,6 +1886,7 @@ Proof.
   assert (Z0 : w_objs (set_limits st0 min max) = tstats0 /\ w_idlen (set_limits st0 min max) = 0%nat /\
                w_obj (set_limits st0 min max) = []).
   { unfold w_new in N0. destruct (16777216 <=? c_block_size cfg); [discriminate|].
+    destruct (block_too_small cfg) eqn:TS; [discriminate|].
     apply Ok_inj in N0. subst st0. auto. }
   destruct Z0 as (Z1 & Z2 & Z3).
   assert (O0 : OI (cfg_defaults cfg) (set_limits st0 min max) [] []).
